@@ -134,7 +134,7 @@ pub fn run(ctx: &Ctx) -> Verdict {
         "build variant: std".into(),
     ];
     v.subs.push(super::replay_corpus(ctx));
-    let n = ctx.tier.pick(40_000, 800_000);
+    let n = ctx.tier.pick(150_000, 4_000_000);
     v.subs.push(vcore::run_proptest(ctx, "diff", n, gen::scenario(cfg()), check));
     let counted_strategy = (gen::scenario(cfg()), proptest::collection::vec(any::<u8>(), 40))
         .prop_map(|(s, d)| counted(s, d));
@@ -143,6 +143,7 @@ pub fn run(ctx: &Ctx) -> Verdict {
     if ctx.tier == vcore::Tier::Thorough {
         v.subs.push(super::fuzz_campaign(ctx, 1_500_000));
     }
+    v.subs.extend(super::variant_reports(ctx, &["nostd-spin", "nostd-nomutex"]));
     v
 }
 
